@@ -204,6 +204,30 @@ ENC_CONTENTS = ['\u4e66\u8bfb\u767e\u904d', '\u4e66', '\u70b9\u8317', '123', 'AB
 ENCODINGS = ('gb2312', 'GB2312', 'gbk', 'shift_jis', 'Shift_JIS', 'cp932', 'utf-8', 'iso-8859-1', 'latin1', 'euc_jp', 'iso-8859-5')
 
 
+def eci_case(content, acc):
+    """eci=True (with or without an explicit encoding) must not change which mode is chosen or whether a requested mode is accepted"""
+    for mode in (None,) + MODES:
+        for enc in (None, 'shift_jis', 'utf-8'):
+            kw = {'micro': False}
+            if mode is not None:
+                kw['mode'] = mode
+            if enc is not None:
+                kw['encoding'] = enc
+            res = []
+            for eci in (False, True):
+                try:
+                    q = segno.make(content, eci=eci, **kw)
+                    res.append(q.mode)
+                except ValueError:
+                    res.append('ValueError')
+                except Exception as e:
+                    res.append('exc:' + C.exc_name(e))
+            case = ('eci1', content, mode, enc)
+            acc.eval(case, nontrivial=res[0] != 'ValueError', outcome=tuple(res), state=('eci', mode, enc))
+            if res[0] != res[1]:
+                acc.violation('eci-changes-mode', 'make(%r, **%r): mode %r without eci, %r with eci=True' % (content, kw, res[0], res[1]), case)
+
+
 def encodings_case(content, acc):
     for enc in ENCODINGS:
         try:
@@ -319,6 +343,11 @@ def run_case(case, acc):
                         judge(content, d, m.upper(), None, acc, entry=e)
     elif kind == 'encodings':
         encodings_case(ENC_CONTENTS[case[1]], acc)
+        eci_case(ENC_CONTENTS[case[1]], acc)
+        for extra in ('\uff11\uff12', '\u70b9', b'\x93\x5f\xe4\xaa', '12', 'AB'):
+            eci_case(extra, acc)
+    elif kind == 'eci1':
+        eci_case(case[1], acc)
     elif kind == 'enc1':
         encodings_case(case[1], acc)
     elif kind == 'history':
